@@ -819,10 +819,16 @@ class Fxp():
                 max(abs(int(np.max(val))), abs(int(np.min(val)))) >= 2**52:
                 # (wide integers: the map is computed with Python integers; int64 would wrap at its edge, float64 would round)
                 val = val.astype(object)
+            if val.dtype != object and np.issubdtype(val.dtype, np.complexfloating) and val.dtype.itemsize < 16:
+                val = val.astype(complex)       # (single-precision complex carriers: the map is computed in double precision)
             if self.bias != 0:
                 val = val - self.bias
             if self.scale != 1:
-                val = val / self.scale
+                if np.iscomplexobj(val) and val.dtype != object:
+                    # each component is divided on its own (NumPy divides a complex by a real through the reciprocal: 49 * (1/49.) != 1)
+                    val = (np.real(val) / self.scale) + 1j * (np.imag(val) / self.scale)
+                else:
+                    val = val / self.scale
 
             # update vdtype due scaling tranformation
             if vdtype == int and (isinstance(self.bias, float) or self.scale != 1):
